@@ -49,7 +49,7 @@ PT_VARIANTS = [
 
 @st.composite
 def strategy_(draw, tier):
-    cfg = {"max_depth": 3 if tier == "quick" else 4, "methods": True, "std": True, "lit_in_union": False, "unsup": False}
+    cfg = {"max_depth": 3 if tier == "quick" else 4, "generics": True, "methods": True, "std": True, "lit_in_union": False, "unsup": False}
     prog = draw(gen.programs(cfg))
     opts = {"aliaser": pick(draw, ["id", "id", "camel", "pfx"]), "additional_properties": chance(draw, 0.25),
             "fall_back_on_default": chance(draw, 0.15), "exclude_none": chance(draw, 0.25), "exclude_defaults": chance(draw, 0.25)}
@@ -139,7 +139,7 @@ def _deser(case, ctx, b, prog, opts):
             if got[0] == "ok" and not no_copy:
                 shared = hostile.container_ids(inp) & result_container_ids(got[1])
                 if shared:
-                    kinds = sorted({type_at(prog, root, inp, p, opts["aliaser"], M.Opts(**opts)) for p in paths_of(inp, shared)})
+                    kinds = sorted({type_at(prog, root, inp, p, opts["aliaser"], M.Opts(**opts), result=got[1]) for p in paths_of(inp, shared)})
                     ctx.violation({"side": "deserialization", "kind": "shares_container_with_input", "at": kinds}, single,
                                   f"no_copy=False but result {got[1]!r} shares {len(shared)} mutable container(s) with the input {tdcase.compact(d, 200)} "
                                   f"at positions typed {kinds}")
@@ -182,15 +182,12 @@ def _container_alts(prog, t, cur, mopts=None):
             out.append(a)
     if len(out) > 1:  # tell the alternative from the datum with the reference model
         m = M.Model(prog, mopts or M.Opts(aliaser="id"))
-        acc = []
-        for a in out:
+        for a in out:  # in order: the first accepting alternative is the one served
             try:
                 if m.deserialize(a, cur)[0] == "ok":
-                    acc.append(a)
+                    return [a]
             except M.Unspecified:
                 return out
-        if len(acc) >= 1:
-            return acc[:1]
     return out
 
 
@@ -206,7 +203,7 @@ def _find_field(prog, cd, key, dyn):
     return None
 
 
-def type_at(prog, t, d, path, dyn, mopts=None) -> str:
+def type_at(prog, t, d, path, dyn, mopts=None, result=None) -> str:
     """Kind of the declared type at `path` of datum d: 'any', 'additional_property', a kind name, or
     'unknown' when the path crosses a union whose alternative cannot be told from the datum's class."""
     cur = d
@@ -216,6 +213,12 @@ def type_at(prog, t, d, path, dyn, mopts=None) -> str:
         k = t["k"]
         if k in ("opt", "union"):
             alts = _container_alts(prog, t, cur, mopts)
+            if len(alts) != 1 and cur is d and result is not None:
+                # root union: the class of the result tells which object alternative was served
+                named = [a for a in alts if M.strip(a, prog)["k"] == "cls" and prog["classes"][M.strip(a, prog)["i"]]["name"] == type(result).__name__
+                         and prog["classes"][M.strip(a, prog)["i"]]["flavor"] != "typeddict"]
+                if len(named) == 1:
+                    alts = named
             if alts and all(M.strip(a, prog)["k"] == "any" for a in alts):
                 return "any"
             if len(alts) != 1:
@@ -236,6 +239,8 @@ def type_at(prog, t, d, path, dyn, mopts=None) -> str:
             t = t["val"]
         elif k == "cls":
             cd = prog["classes"][t["i"]]
+            if t.get("args"):
+                cd = M.specialize(cd, t["args"])
             nxt = _find_field(prog, cd, p, dyn)
             if nxt is None:
                 aggs = [f for f in M.des_fields(cd) if f.get("agg")]
